@@ -45,6 +45,7 @@ let run (op_full : string) (a : string array) : string =
   | "compare" -> show_res (fun c -> "=" ^ show_cmp c) (compare_w (unhex a.(0)) (unhex a.(1)))
   | "cmp_value" -> "ok =" ^ show_cmp (cmp_value (parse_val a.(0)) (parse_val a.(1)))
   | "convert_to_comparable" -> show_res hex (comparable_w (unhex a.(0)) prefix)
+  | "key_safe_doc" -> show_res show_bool (match doc_of (unhex a.(0)) with Ok v -> Ok (key_safe_doc v) | Err e -> Err e | Panic -> Panic)
   | "array_length" -> show_res (show_opt (fun n -> "=" ^ ZA.to_string (zt_of_n n))) (array_length_w (unhex a.(0)))
   | "get_by_index" -> show_res (show_opt hex) (get_by_index_w (unhex a.(0)) (n_of_zt (ZA.of_string a.(1))))
   | "get_by_name" -> show_res (show_opt hex) (get_by_name_w (unhex a.(0)) (unhex a.(1)) (a.(2) = "1"))
